@@ -386,3 +386,22 @@ reg(
                 "slips show up only when every cell and every assignment is tried."),
     level_note="The L2 table (refm::eq / cmp / compare, about 100 lines) is trusted.",
 )
+
+reg(
+    "C07",
+    title="variable paths and literals",
+    level="exploration",
+    technique="runtime monitoring against a reference lookup: every path of length 1..4 over nested data, with every index in [-len-2, len+1] and special/colliding keys, written in dot/bracket literal form, through variables and through nested paths; literals parsed back structurally through the dump plugin",
+    design_ref="DESIGN.md §5 C07",
+    rule=("cases: (paths) two hand-built and 30 (thorough 400) generated nested data roots (arrays of length 0..5 inside objects inside arrays, own keys named size/first/last, integer-like, non-ASCII and spaced keys, non-ASCII strings); "
+          "from every reachable value every candidate step is tried (array: every integer in [-len-2, len+1], first, last, size, an absent name; object: own keys, size, absent and integer-like keys; strings: size, absent, 0), to depth 4, "
+          "each path written with literal indices (dot and bracket forms), with indices supplied by variables, and by nested paths r[ix.p0]...; expected = the reference step function; a missing step must make the output tag fail. "
+          "(literals) i64 boundaries and a sweep of 2*10^3 (thorough 2*10^4) integers with +, - and leading zeros, decimals with 1..6 fraction digits, strings in both quote styles over a hostile alphabet, true/false/nil/null, out-of-range integers. "
+          "distinct = distinct (template, data); non-trivial = the path has at least one step / every literal."),
+    profiles={"quick": ["checked"], "thorough": ["checked"]},
+    floor={"quick": 15000, "thorough": 300000},
+    assumptions=["[].first / [].last, first/last/size of numbers, numeric strings as array indices and float indices are not specified and not compared", "in the quick tier paths deeper than 2 steps are sampled (1 in 6)"],
+    level_text=("Systematic enumeration of path steps around every boundary of the generated data with an independent 60-line lookup as oracle; 'fails loudly' is observed as an error result. Right level: off-by-one and "
+                "key-collision defects hide at indices and names the suite never tries."),
+    level_note="The reference step function (refm::step) is trusted.",
+)
